@@ -402,6 +402,15 @@ def line_mode(ctx, fi, data, r5='C04.D5', r6='C04.D6'):
                            'bytes are binary message data)')
                     line = trace[handles[0]][1][3][0] if handles else None
                     bufv = st.heap.get((SELF, '_buffer'))
+                    # the remainder may also be handed on as the argument
+                    # of the re-entrant dataReceived call, buffer emptied
+                    refeed = [ev[1][3][0] for ev in trace[switch[0]:]
+                              if ev[0] == 'call' and
+                              ev[1][1] == fi.qualname and
+                              kind(ev[1][2]) == 'bound' and
+                              ev[1][2][1] == SELF and len(ev[1][3]) == 1]
+                    if bufv == C(b'') and len(refeed) == 1:
+                        bufv = refeed[0]
                     ok = False
                     if kind(line) == 'sub' and kind(line[1]) == 'call' and \
                             kind(line[1][2]) == 'attr':
@@ -434,6 +443,9 @@ def line_mode(ctx, fi, data, r5='C04.D5', r6='C04.D6'):
                     ev[1][2][2] == 'loseConnection' for ev in p.trace[:2])
                 if lose_first and fb == C(True):
                     continue
+                if any(kind(c) == 'attr' and c[2] == 'disconnecting' and pol
+                       for c, pol in p.cond):
+                    continue     # the connection is already being closed
                 feeds = False
                 for t in all_terms(
                         [e for tr in [p.trace] for e in iter_events(tr)],
